@@ -222,16 +222,19 @@ impl TProxyListener {
                 .await
                 .context("setup session failed")?;
         } else {
-            let ctx = state
-                .contexts
-                .create_context(self.name.to_owned(), src)
-                .await;
             let (tx, rx) = channel(100);
             let mut session = Session::new(src, tx);
             session
                 .add_frame(buf)
                 .await
                 .context("setup session failed")?;
+            let ctx = state
+                .contexts
+                .create_context(self.name.to_owned(), src)
+                .await;
+            ctx.write()
+                .await
+                .set_callback(TproxyCallback::new(key, inner.clone()));
             inner.sessions.insert(key, session).await;
             if self.udp_full_cone {
                 let r = TproxyReader::new(rx);
@@ -244,18 +247,24 @@ impl TProxyListener {
                     .set_extra("udp-bind-source", src)
                     .set_client_frames((r, w));
             } else {
-                let frames =
-                    setup_udp_session(dst.into(), dst, src, rx, true).context("setup session")?;
+                let frames = match setup_udp_session(dst.into(), dst, src, rx, true)
+                    .context("setup session")
+                {
+                    Ok(frames) => frames,
+                    Err(e) => {
+                        // the session is already registered and listed: end it properly
+                        ctx.write().await.set_target(dst.into());
+                        ctx.on_error(e).await;
+                        return Ok(());
+                    }
+                };
                 ctx.write()
                     .await
                     .set_target(dst.into())
                     .set_feature(Feature::UdpForward)
                     .set_client_frames(frames);
             }
-            ctx.write()
-                .await
-                .set_callback(TproxyCallback::new(key, inner.clone()))
-                .set_idle_timeout(state.timeouts.udp);
+            ctx.write().await.set_idle_timeout(state.timeouts.udp);
             ctx.enqueue(queue).await?;
         }
 
